@@ -19,54 +19,61 @@ def deltaMaxBytes (count : Nat) : Nat := (count * 76 + 7) / 8
 def encGamma (xs : List Nat) : List Nat := packMsb (xs.flatMap gamma)
 def encDelta (xs : List Nat) : List Nat := packMsb (xs.flatMap delta)
 
-/-- read `n` bits MSB-first starting at bit `pos`: (value, new pos); none = byte outside the buffer -/
-def readBits (bytes : List Nat) : Nat → Nat → Nat → Option (Nat × Nat)
+/-- A bit source: `rd i = none` means "loading bit `i` is a read outside what the caller declared". -/
+abbrev Reader := Nat → Option Bool
+
+/-- the bits a caller hands over: `srcBits` bits of `bytes`, nothing at or beyond `srcBits` -/
+def declared (bytes : List Nat) (srcBits : Nat) : Reader :=
+  fun i => if i < srcBits then bitMsb bytes i else none
+
+/-- `varintBitReaderRead(r, n)`: (value, new pos); none = a bit outside the source was loaded -/
+def readBits (rd : Reader) : Nat → Nat → Nat → Option (Nat × Nat)
   | 0, pos, acc => some (acc, pos)
   | n + 1, pos, acc =>
-    match bitMsb bytes pos with
+    match rd pos with
     | none => none
-    | some b => readBits bytes n (pos + 1) (2 * acc + (if b then 1 else 0))
+    | some b => readBits rd n (pos + 1) (2 * acc + (if b then 1 else 0))
 
-/-- `varintEliasGammaDecode` as repaired: every bit read is first checked against `total`;
+/-- `varintEliasGammaDecode` as repaired: `varintBitReaderHasMore` before every read;
     0 = error / exhausted. Returns (value, new pos). `z` = zeros seen so far. -/
-def gammaDecAux (bytes : List Nat) (total : Nat) : Nat → Nat → Nat → Option (Nat × Nat)
+def gammaDecAux (rd : Reader) (total : Nat) : Nat → Nat → Nat → Option (Nat × Nat)
   | 0, _, pos => some (0, pos)
   | fuel + 1, z, pos =>
     if pos + 1 > total then some (0, pos) else
-    match bitMsb bytes pos with
+    match rd pos with
     | none => none
     | some true =>
       if z = 0 then some (1, pos + 1)
       else if pos + 1 + z > total then some (0, pos + 1)
-      else (readBits bytes z (pos + 1) 0).map fun (r, p) => (2 ^ z + r, p)
+      else (readBits rd z (pos + 1) 0).map fun (r, p) => (2 ^ z + r, p)
     | some false =>
-      if z + 1 > 63 then some (0, pos + 1) else gammaDecAux bytes total fuel (z + 1) (pos + 1)
+      if z + 1 > 63 then some (0, pos + 1) else gammaDecAux rd total fuel (z + 1) (pos + 1)
 
-def gammaDec (bytes : List Nat) (total pos : Nat) : Option (Nat × Nat) := gammaDecAux bytes total 65 0 pos
+def gammaDec (rd : Reader) (total pos : Nat) : Option (Nat × Nat) := gammaDecAux rd total 65 0 pos
 
 /-- `varintEliasDeltaDecode` as repaired -/
-def deltaDec (bytes : List Nat) (total pos : Nat) : Option (Nat × Nat) :=
-  match gammaDec bytes total pos with
+def deltaDec (rd : Reader) (total pos : Nat) : Option (Nat × Nat) :=
+  match gammaDec rd total pos with
   | none => none
   | some (lenN, p) =>
     if lenN = 0 ∨ lenN > 64 then some (0, p)
-    else
-      let n := lenN - 1
-      if n = 0 then some (1, p)
-      else if p + n > total then some (0, p)
-      else (readBits bytes n p 0).map fun (r, q) => (2 ^ n + r, q)
+    else if lenN - 1 = 0 then some (1, p)
+    else if p + (lenN - 1) > total then some (0, p)
+    else (readBits rd (lenN - 1) p 0).map fun (r, q) => (2 ^ (lenN - 1) + r, q)
 
-def decArrayAux (one : List Nat → Nat → Nat → Option (Nat × Nat)) (bytes : List Nat) (total : Nat) :
+def decArrayAux (one : Reader → Nat → Nat → Option (Nat × Nat)) (rd : Reader) (total : Nat) :
     Nat → Nat → Option (List Nat)
   | 0, _ => some []
   | room + 1, pos =>
     if pos + 1 > total then some [] else
-    match one bytes total pos with
+    match one rd total pos with
     | none => none
-    | some (v, p) => if v = 0 then some [] else (decArrayAux one bytes total room p).map (v :: ·)
+    | some (v, p) => if v = 0 then some [] else (decArrayAux one rd total room p).map (v :: ·)
 
-/-- `varintEliasGammaDecodeArray(src, srcBits, values, maxCount)` -/
-def decGamma (bytes : List Nat) (srcBits cap : Nat) : Option (List Nat) := decArrayAux gammaDec bytes srcBits cap 0
-def decDelta (bytes : List Nat) (srcBits cap : Nat) : Option (List Nat) := decArrayAux deltaDec bytes srcBits cap 0
+/-- `varintEliasGammaDecodeArray(src, srcBits, values, maxCount)`; none = out-of-declared-input load -/
+def decGamma (bytes : List Nat) (srcBits cap : Nat) : Option (List Nat) :=
+  decArrayAux gammaDec (declared bytes srcBits) srcBits cap 0
+def decDelta (bytes : List Nat) (srcBits cap : Nat) : Option (List Nat) :=
+  decArrayAux deltaDec (declared bytes srcBits) srcBits cap 0
 
 end Varint.Elias
